@@ -44,17 +44,22 @@ PROPS["C14"] = {
     "design_ref": "DESIGN.md §6.6",
 }
 
-_PRINT_NOTE = "assumed: Formatter::write_str appends its argument; <char as Display>::fmt writes the char (no width flags); vstd specs for str::chars/Vec/Seq. The three recursive `impl .. for Value` dispatchers are outside Verus (cyclic trait dispatch) and are covered by the bounded stand-in only."
+_PRINT_NOTE = ("assumed: Formatter::write_str appends its argument; <char as Display>::fmt writes the char (no width flags); vstd specs for str::chars/Vec/Seq/<&Vec>::into_iter; "
+    "NumberBuf::as_str / Display write the number's (ASCII) text; SmallString derefs to its text; "
+    "R12: the expression `o.iter().map(|e| (e.key.as_str(), &e.value))` (iterator adapter with a closure) is replaced by an assumed stub yielding the (key, value) pairs of the entries in order; "
+    "definition of elems (the sequence an IntoIterator yields); "
+    "THE KNOT: `impl PrintWithSize / PrecomputeSize / Print for Value` recurse through trait dispatch (generic print_array::<&Vec<Value>> calls back the impl), which Verus rejects outright; their bodies are verified as inherent methods of Value (rule R10, same text) and the trait impls the generic code calls are declared with the same contract and no body; the trait's specification functions for Value are identified with the case definitions by axioms -- partial correctness of a structural recursion, assumed. "
+    "Value::count (capacity hint only) is a stub.")
 PROPS["C08"] = {"units": ["print"], "kani": [], "replay": [], "title": "Compact output", "level": "proof",
-    "level_text": "string_literal is proved to emit exactly the RFC 8785 escaping of every string (all characters, all lengths); digit, the compact option record and the generic array/object emitters are proved per function.",
-    "level_note": _PRINT_NOTE, "design_ref": "DESIGN.md §6.3"}
+    "level_text": "string_literal is proved to emit exactly the RFC 8785 escaping of every string. Whole values: the two passes of the printer (pre_compute_size, fmt_with_size) and Value::fmt_with are proved against the documented layout for every value and option record; lemma_compact proves that with the compact option record the printed text is ctext(v) -- no whitespace, `,` and `:` only, numbers verbatim, strings as their minimal-escape literal, members in the object's own order -- at every depth; Options::compact() is proved to return that record, compact_print/print_with/Display for Printed are proved, and `impl Display for Value` is proved to write ctext(self).",
+    "level_note": _PRINT_NOTE + " `to_string()` / `From<Value> for String` go through std's blanket ToString (not under contract; bounded stand-in).", "design_ref": "DESIGN.md §6.3"}
 
 PROPS["C13"] = {"units": ["print"], "kani": [], "replay": [], "title": "Pretty-print layout", "level": "proof",
-    "level_text": "The generic container printers (print_array/print_object) are proved to emit exactly the documented layout for any number of items and any option record, relative to the trait contract of their items; pre_compute_*_size are proved to compute the printed width and the expansion rule; leaf sizes, indentation and spacing helpers are proved.",
-    "level_note": _PRINT_NOTE, "design_ref": "DESIGN.md §6.3"}
+    "level_text": "The generic container printers (print_array/print_object) are proved to emit exactly the documented layout for any number of items and any option record, relative to the trait contract of their items; pre_compute_*_size are proved to compute the one-line width formula and the expansion rule. Whole values: Value::pre_compute_size, Value::fmt_with_size and Value::fmt_with are proved for every value and option record (value_ptext); lemma_sizes_len proves that printing consumes exactly the sizes the first pass produced; lemma_ptext_containers gives the printed text recursively -- a container is laid out according to ITS OWN size (one line with the configured spacing, dedicated spacing when empty; or one child per line one unit deeper, closing bracket on its own line) around its children's own texts; lemma_never_expanded proves that without limits (inline, compact presets) nothing is ever expanded, so no line break is printed.",
+    "level_note": _PRINT_NOTE + " Not proved: that the one-line width formula equals the length of the one-line text at the level of whole values (proved for strings: printed_string_size == |lit(s)|).", "design_ref": "DESIGN.md §6.3"}
 PROPS["C04"] = {"units": ["print"], "kani": [], "replay": [], "title": "Printing round-trips", "level": "proof",
     "level_text": "String level: string_literal emits '\"' esc_str(s) '\"' for every string (proved); the container emitters emit only the documented separators and whitespace (proved). The re-parse half is the parser's contracts (C01/C02).",
-    "level_note": _PRINT_NOTE + " The lemma that str_decode(lit(s)) == s is stated in DESIGN.md and not yet machine-checked.", "design_ref": "DESIGN.md §6.3"}
+    "level_note": _PRINT_NOTE, "design_ref": "DESIGN.md §6.3"}
 
 PROPS["C20"] = {"units": [], "engine": "kani",
     "kani": ["kindset_membership_len", "kindset_union_intersection", "kindset_with_kind_operands", "kindset_constants", "kindset_iteration", "value_kind_matches_variant"],
@@ -71,7 +76,7 @@ PROPS["C20"]["units"] = ["nav"]
 
 PROPS["C04"]["units"] = ["print", "roundtrip"]
 PROPS["C04"]["level_text"] = "String level, unbounded: string_literal emits lit(s) for every string (proved of the real code, unit print); SmallString::parse_in decodes per str_run (proved of the real code, unit parse); lemma_escape_roundtrip (unit roundtrip, pure specification lemma over the two shared vocabularies) proves str_outcome(lit(s)) == Done(|lit(s)|, s) for every string, every option record and every assignment of byte lengths. Container level: the generic emitters are proved to write only the documented separators and whitespace."
-PROPS["C04"]["level_note"] = _PRINT_NOTE + " Value-level round trip (containers, numbers) rests on the bounded stand-in."
+PROPS["C04"]["level_note"] = _PRINT_NOTE + " The printed text of whole values is specified (value_ptext, proved of the printer) and the parser is proved to compute doc(text); the lemma doc(value_ptext(v)) == v that would tie them for containers and numbers is NOT proved: the value-level round trip rests on the bounded stand-in."
 
 # bounded stand-ins (replay crate) run for every claimed property: they cover what is outside the
 # verifier's reach and supply failing inputs for VIOLATION lines
@@ -119,4 +124,5 @@ TRUST_PATTERNS = [
 ]
 
 VERUS_RLIMIT = 60
+CANARY_RLIMIT = 8
 VERUS_THREADS = 8
